@@ -101,6 +101,13 @@ class Partial:
 
 
 @dataclass(frozen=True)
+class PartialMethod:
+    fn: Any  # functools.partialmethod(fn, *args, **kwargs) found on a class: the instance is passed first
+    args: tuple
+    kwargs: tuple
+
+
+@dataclass(frozen=True)
 class Opaque:
     tag: str = ""
 
@@ -127,6 +134,7 @@ class CollCell:
         self.shared = ""  # where this one object was stored under many keys of a dictionary (dict.fromkeys(keys, obj), d[k] = obj in a loop)
         self.order = None  # None = unknown | ("unsorted",) | ("sorted", key signature): what is known about the order of the elements
         self.scope = born  # iterations of which the collection is a per-element temporary (shrinks when it is stored in a longer-lived container)
+        self.origin = born  # for a view (copy made while re-tagging): the iterations that were running when the collection it shows was created
 
 
 class DictCell:
@@ -175,6 +183,7 @@ class Interp:
         self.eid_info: dict[int, str] = {}
         self.loop_eids: set = set()  # identities that stand for iterations of for-loops / comprehensions
         self.loop_srcs: dict = {}  # iteration identity -> provenance tags of the elements iterated over
+        self.loop_parents: dict = {}  # iteration identity -> identities of the iterations the iterated elements already stem from
         self.closures: list[dict] = []
         self.stack: list[str] = []
         self.guards: list[list] = []  # data-dependent conditions guarding the calls on the stack
@@ -438,6 +447,7 @@ class Interp:
                 src = self.cell(sh)
                 r = self.coll(k, src.site)
                 self.cell(r).order = src.order  # a view has the order of what it shows
+                self.cell(r).origin = src.origin
                 self.add(r, self.map_scalars(self.elems(V(sh)), f, (key, "e"), depth + 1))
                 out.add(r)
             elif isinstance(sh, Ref) and sh.kind == "obj" and self.is_record(self.cell(sh).ci):
@@ -761,9 +771,9 @@ class Interp:
             return V(self.dict_(("const", mod.name, name), mod.relpath))
         return self.ev(c, {}, self.module_frame(mod, ("const", mod.name, name)))
 
-    STATIC_CALLS = {"frozenset", "set", "tuple", "list", "dict", "defaultdict", "OrderedDict", "itemgetter", "attrgetter", "methodcaller", "partial", "staticmethod", "MappingProxyType", "Template"}
+    STATIC_CALLS = {"frozenset", "set", "tuple", "list", "dict", "defaultdict", "OrderedDict", "itemgetter", "attrgetter", "methodcaller", "partial", "staticmethod", "MappingProxyType", "Template", "partialmethod", "property"}
 
-    def static_expr(self, mod, e: ast.AST, seen: frozenset = E, depth: int = 0) -> bool:
+    def static_expr(self, mod, e: ast.AST, seen: frozenset = E, depth: int = 0, scope: ClassInfo | None = None) -> bool:
         """Can the module / class level expression be evaluated without running code of the repository?  (It is built from
         literals, displays, lambdas, references to functions / classes / other such constants and the getter / partial factories.)"""
         if depth > 8:
@@ -773,15 +783,19 @@ class Interp:
         if isinstance(e, ast.Lambda):
             return True
         if isinstance(e, (ast.Tuple, ast.List, ast.Set)):
-            return all(self.static_expr(mod, x, seen, depth + 1) for x in e.elts)
+            return all(self.static_expr(mod, x, seen, depth + 1, scope) for x in e.elts)
         if isinstance(e, ast.Dict):
-            return all(k is not None and self.static_expr(mod, k, seen, depth + 1) and self.static_expr(mod, v, seen, depth + 1) for k, v in zip(e.keys, e.values))
+            return all(k is not None and self.static_expr(mod, k, seen, depth + 1, scope) and self.static_expr(mod, v, seen, depth + 1, scope) for k, v in zip(e.keys, e.values))
         if isinstance(e, ast.Name):
+            if scope is not None and e.id in scope.methods:
+                return True
+            if scope is not None and e.id in scope.class_attrs:
+                return e.id not in seen and self.static_expr(mod, scope.class_attrs[e.id], seen | {e.id}, depth + 1, scope)
             if e.id in mod.functions or e.id in mod.classes or e.id in mod.imports:
                 return True
             if e.id in mod.constants:
-                return e.id not in seen and self.static_expr(mod, mod.constants[e.id], seen | {e.id}, depth + 1)
-            return e.id in ("True", "False", "None", "str", "list", "set", "dict", "int", "tuple", "frozenset", "reversed", "sorted", "len", "iter", "staticmethod")
+                return e.id not in seen and self.static_expr(mod, mod.constants[e.id], seen | {e.id}, depth + 1, scope)
+            return e.id in ("True", "False", "None", "str", "list", "set", "dict", "int", "tuple", "frozenset", "reversed", "sorted", "len", "iter", "staticmethod", "property")
         if isinstance(e, ast.Attribute):
             # operator.itemgetter, itertools.chain.from_iterable, SomeClass.method
             b = e.value
@@ -791,9 +805,11 @@ class Interp:
         if isinstance(e, ast.Call):
             f = e.func
             fname = f.id if isinstance(f, ast.Name) else f.attr if isinstance(f, ast.Attribute) else ""
-            if fname not in self.STATIC_CALLS or not self.static_expr(mod, f, seen, depth + 1):
+            fq = self.repo.resolve_name(mod, f) if isinstance(f, (ast.Name, ast.Attribute)) else None
+            record = fq in self.repo.classes and self.is_record(self.repo.classes[fq]) and self.repo.lookup_method(self.repo.classes[fq], "__init__") is None and self.repo.lookup_method(self.repo.classes[fq], "__post_init__") is None
+            if not record and (fname not in self.STATIC_CALLS or not self.static_expr(mod, f, seen, depth + 1, scope)):
                 return False
-            return all(self.static_expr(mod, x, seen, depth + 1) for x in e.args) and all(k.arg is not None and self.static_expr(mod, k.value, seen, depth + 1) for k in e.keywords)
+            return all(self.static_expr(mod, x, seen, depth + 1, scope) for x in e.args) and all(k.arg is not None and self.static_expr(mod, k.value, seen, depth + 1, scope) for k in e.keywords)
         return False
 
     def module_frame(self, mod, inv: tuple) -> Frame:
@@ -817,6 +833,16 @@ class Interp:
             e._func = nf  # type: ignore[attr-defined]
         return nf
 
+    def find_method(self, ci: ClassInfo, name: str) -> FuncInfo | None:
+        """Method `name` as looked up on `ci`; None when a class level assignment (`name = partialmethod(...)`, an alias of
+        another method) comes first in the method resolution order."""
+        for k in self.repo.mro(ci):
+            if name in k.methods:
+                return k.methods[name]
+            if name in k.class_attrs:
+                return None
+        return None
+
     def class_attr(self, ci: ClassInfo, name: str, recv: frozenset | None) -> frozenset | None:
         """Value of a class level assignment `name = <expr>` looked up on an instance (`recv`) or on the class (recv None):
         functions become bound methods, getter / partial objects and staticmethods do not."""
@@ -827,13 +853,29 @@ class Interp:
         if isinstance(ce, ast.Constant):
             return V(Const(ce.value))
         mod = owner.module
-        if not self.static_expr(mod, ce):
+        if not self.static_expr(mod, ce, frozenset({name}), 0, owner):
             return V(Opaque(name))
         static = isinstance(ce, ast.Call) and isinstance(ce.func, ast.Name) and ce.func.id == "staticmethod"
-        v = self.ev(ce, {}, self.module_frame(mod, ("classattr", owner.fq, name)))
+        # names of the class body: methods (plain functions there) and the other class level assignments
+        env: dict = {}
+        for n in ast.walk(ce):
+            if isinstance(n, ast.Name) and n.id != name and n.id not in env:
+                if n.id in owner.methods:
+                    env[n.id] = V(Fn(owner.methods[n.id]))
+                elif n.id in owner.class_attrs:
+                    env[n.id] = self.class_attr(owner, n.id, None) or E
+        v = self.ev(ce, env, self.module_frame(mod, ("classattr", owner.fq, name)))
         if recv is None or static:
             return v
-        return frozenset(Partial(V(sh), (recv,), ()) if isinstance(sh, Fn) and sh.recv is None else sh for sh in v)
+        out = set()
+        for sh in v:
+            if isinstance(sh, Fn) and sh.recv is None:
+                out.add(Partial(V(sh), (recv,), ()))  # a function found on the class is a bound method
+            elif isinstance(sh, PartialMethod):
+                out.add(Partial(sh.fn, (recv, *sh.args), sh.kwargs))
+            else:
+                out.add(sh)
+        return frozenset(out)
 
     # ------------------------------------------------------------------ statements
     def exec_block(self, stmts: list[ast.stmt], env: dict | None, fr: Frame) -> dict | None:
@@ -1168,6 +1210,7 @@ class Interp:
                 iter_calls = self.ncalls != c0
             elem = self.elems(itv)
             self.loop_srcs.setdefault(e, set()).update(x for sc in self.scalars(elem) for x in sc.srcs)
+            self.loop_parents.setdefault(e, set()).update(x for sc in self.scalars(elem) for x in sc.eids if x != e)
             # one pass per alternative shape of the element keeps the provenance of different sources apart
             alts = [V(sh) for sh in elem] if 0 < len(elem) <= 64 else [elem]
             out = None
@@ -1514,7 +1557,9 @@ class Interp:
                     return V(self.coll((id(e), fr.inv, "tup"), self.site(fr, e), frozenset().union(*[self.elems(self.ev(y.value, env, fr)) if isinstance(y, ast.Starred) else self.ev(y, env, fr) for y in e.elts])))
                 items.append(self.ev(x, env, fr))
             t = Tup(tuple(items), self.site(fr, e))
-            m = self.link_mark([self.scalars(it) for it in items], fr, e)
+            # (subject, object) built from two different pairs; members that are whole collections (a tuple of buckets) are
+            # checked where their elements are combined
+            m = self.link_mark([self.scalars(it, into_colls=False) for it in items], fr, e)
             if m is not None:
                 return self.with_marks(V(t), [m], (id(e), fr.inv, "mix"))
             return V(t)
@@ -1698,6 +1743,7 @@ class Interp:
             self.loop_eids.add(eid)
             elem = self.elems(itv)
             self.loop_srcs.setdefault(eid, set()).update(x for sc in self.scalars(elem) for x in sc.srcs)
+            self.loop_parents.setdefault(eid, set()).update(x for sc in self.scalars(elem) for x in sc.eids if x != eid)
             alts = [V(sh) for sh in elem] if 0 < len(elem) <= 64 else [elem]
             for alt in alts:
                 cur = self.retag(alt, eid, (id(e), gi, fr.inv, "it"))
@@ -1859,7 +1905,7 @@ class Interp:
                         v = self.map_scalars(v, lambda s, tag=tag: replace(s, srcs=s.srcs | {tag}), (id(node), fr.inv, "fld"))
                     out |= v
                     continue
-                m = self.repo.lookup_method(c.ci, name) if c.ci is not None else None
+                m = self.find_method(c.ci, name) if c.ci is not None else None
                 if m is not None and any(d.rsplit(".", 1)[-1] == "cached_property" for d in m.decorators):
                     v = self.call_fn(m, V(sh), [], {}, node, fr)
                     self.set_field(sh, name, v, strong=False)
@@ -1880,7 +1926,7 @@ class Interp:
                 out.add(Opaque(f"{sh.tag}.{name}"))
             elif isinstance(sh, Cls):
                 ci = self.repo.classes.get(sh.fq)
-                m = self.repo.lookup_method(ci, name) if ci else None
+                m = self.find_method(ci, name) if ci else None
                 if m is not None:
                     out.add(Fn(m, V(sh) if m.is_classmethod else None))
                 elif ci is not None and self.is_enum(sh.fq) and name in self.enum_members(sh.fq):
@@ -2127,7 +2173,7 @@ class Interp:
                     vals[fields[i]] = v
             for k, v in kwargs.items():
                 vals[k] = v
-            m = self.link_mark([self.scalars(v) for v in vals.values()], fr, node)
+            m = self.link_mark([self.scalars(v, into_colls=False) for v in vals.values()], fr, node)
             for n, v in vals.items():
                 if m is not None:
                     v = self.with_marks(v, [m], (id(node), inv, "mix", n))
@@ -2139,7 +2185,7 @@ class Interp:
     def method(self, sh, name: str, args: list, kwargs: dict, call: ast.Call, env: dict, fr: Frame, key: frozenset | None = None) -> frozenset:
         if isinstance(sh, Ref) and sh.kind == "obj":
             c = self.cell(sh)
-            m = self.repo.lookup_method(c.ci, name) if c.ci is not None else None
+            m = self.find_method(c.ci, name) if c.ci is not None else None
             if m is not None:
                 if m.is_staticmethod:
                     return self.call_fn(m, None, args, kwargs, call, fr, caller_env=env)
@@ -2156,7 +2202,7 @@ class Interp:
             return self.dict_method(sh, name, args, kwargs, call, env, fr)
         if isinstance(sh, Cls):
             ci = self.repo.classes.get(sh.fq)
-            m = self.repo.lookup_method(ci, name) if ci else None
+            m = self.find_method(ci, name) if ci else None
             if m is None and ci is not None and any(name in k.class_attrs for k in self.repo.mro(ci)):
                 out = set()
                 for f in self.class_attr(ci, name, None):
@@ -2341,6 +2387,15 @@ class Interp:
             return V(Partial(args[0], tuple(args[1:]), tuple(sorted(kwargs.items()))))
         if name in ("staticmethod", "types.MappingProxyType", "MappingProxyType") and len(args) == 1:
             return args[0]
+        if name in ("functools.partialmethod", "partialmethod") and args:
+            return V(PartialMethod(args[0], tuple(args[1:]), tuple(sorted(kwargs.items()))))
+        if name in ("operator.not_", "operator.truth", "not_", "truth") and len(args) == 1:
+            # truthiness: of a collection / an aggregate it is an emptiness test
+            b = self.as_bool(args[0])
+            if b is not None:
+                return V(Const(b if short == "truth" else not b))
+            benign = bool(args[0]) and all((isinstance(sh, Ref) and sh.kind in ("coll", "dict")) or isinstance(sh, (Tup, Const)) or (isinstance(sh, Sc) and sh.agg) for sh in args[0])
+            return self.derive([self.elems(args[0]) if any(isinstance(sh, Ref) for sh in args[0]) else args[0]], fr, call, check=False, agg=benign)
         if name in ("operator.methodcaller", "methodcaller") and args:
             names = [c.value for c in args[0] if isinstance(c, Const) and isinstance(c.value, str)]
             if len(names) != 1 or len(args[0]) != 1:
@@ -2367,7 +2422,11 @@ class Interp:
             return V(r)
         if name in ("itertools.repeat", "repeat") and args:
             return V(self.coll(key, site, args[0]))
-        if name in ("itertools.islice", "islice", "itertools.takewhile", "takewhile", "itertools.dropwhile", "dropwhile", "itertools.filterfalse", "filterfalse", "itertools.compress", "compress") and args:
+        if name in ("itertools.filterfalse", "filterfalse") and len(args) == 2:
+            return self.selection(key, site, args[1], args[0], None, call, env, fr)
+        if name in ("itertools.compress", "compress") and len(args) == 2:
+            return self.selection(key, site, args[0], None, args[1], call, env, fr)
+        if name in ("itertools.islice", "islice", "itertools.takewhile", "takewhile", "itertools.dropwhile", "dropwhile") and args:
             src = args[0] if short in ("islice", "compress") else args[-1]
             r = self.coll(key, site, self.elems(src))
             self.cell(r).order = self.order_of(src)
@@ -2465,6 +2524,7 @@ class Interp:
             self.loop_eids.add(e)
             first = self.elems(args[1])
             self.loop_srcs.setdefault(e, set()).update(x for sc in self.scalars(first) for x in sc.srcs)
+            self.loop_parents.setdefault(e, set()).update(x for sc in self.scalars(first) for x in sc.eids if x != e)
             alts = [V(sh) for sh in first] if 0 < len(first) <= 64 else [first]
             self.active.append(e)
             try:
@@ -2476,11 +2536,7 @@ class Interp:
                 self.active.pop()
             return V(r)
         if name == "filter" and len(args) >= 2:
-            r = self.coll(key, site, self.elems(args[1]))
-            self.cell(r).order = self.order_of(args[1])
-            grouped = any(self.live(sc.assoc - sc.gone) for sc in self.scalars(self.elems(args[1])))
-            self.add_part(r, [("part", site, f"`{norm(call, 60)}` keeps only some elements", grouped)])
-            return V(r)
+            return self.selection(key, site, args[1], args[0], None, call, env, fr)
         if name == "zip" and len(args) == 1 and len(args[0]) == 1 and isinstance(next(iter(args[0])), Tup) and next(iter(args[0])).site == "unzip":
             return args[0]
         if name == "zip":
@@ -2640,6 +2696,52 @@ class Interp:
         if any(isinstance(x, Ref) and x.kind in ("coll", "dict") for a in [*args, *kwargs.values()] for x in a):
             return self.top(f"library function `{name}` applied to a collection is not modelled")
         return self.derive([*args, *kwargs.values()], fr, call, check=False, none=False)
+
+    def selection(self, key, site: str, src: frozenset, pred, selectors, call: ast.AST, env: dict, fr: Frame) -> frozenset:
+        """filter(pred, xs) / filterfalse(pred, xs) / compress(xs, selectors): a sub-sequence of xs.  Like a comprehension `if`, the
+        selection only counts as dropping reported data when its condition depends on that data (not on constants, not on the
+        emptiness of a collection / an aggregate such as len())."""
+        r = self.coll(key, site)
+        self.cell(r).order = self.order_of(src)
+        first = self.elems(src)
+        e = self.eid((key, "sel"), site)
+        self.loop_eids.add(e)
+        self.loop_parents.setdefault(e, set()).update(x for sc in self.scalars(first) for x in sc.eids if x != e)
+        conds: list[frozenset] = []
+        if selectors is not None:
+            conds.append(self.elems(selectors))
+            self.add(r, first)
+        else:
+            self.active.append(e)
+            try:
+                for alt in [V(sh) for sh in first]:
+                    cur = self.retag(alt, e, (key, "sel"))
+                    cv: set = set()
+                    for f in (pred or ()):
+                        if isinstance(f, Const) and f.value is None:
+                            cv |= cur  # filter(None, xs): truthiness of the element itself
+                        else:
+                            cv |= self.apply(f, [cur], {}, call, env, fr)
+                    b = self.as_bool(frozenset(cv))
+                    keep = not b if call is not None and isinstance(call, ast.Call) and norm(call.func).endswith("filterfalse") else b
+                    if keep is False:
+                        continue
+                    conds.append(frozenset(cv))
+                    self.add(r, alt)
+            finally:
+                self.active.pop()
+        data = False
+        for cv in conds:
+            if self.as_bool(cv) is not None:
+                continue
+            if cv and all((isinstance(sh, Ref) and sh.kind in ("coll", "dict")) or isinstance(sh, (Tup, Const)) or (isinstance(sh, Sc) and sh.agg) for sh in cv):
+                continue  # emptiness
+            if self.has_top(cv) or any(sc.srcs - {x for x in sc.srcs if str(x).startswith("fld:")} for sc in self.scalars(cv)):
+                data = True
+        if data:
+            grouped = any(self.live(sc.assoc - sc.gone) for sc in self.scalars(first))
+            self.add_part(r, [("part", site, f"`{norm(call, 60)}` keeps only some elements", grouped)])
+        return V(r)
 
     # ------------------------------------------------------------------ entry points for the rules
     def root_frame(self, fi: FuncInfo | None = None) -> Frame:
